@@ -103,6 +103,9 @@ PInit(projects) ==
   /\ P \in projects /\ stage = "loadSchema" /\ idx = 1 /\ checked = FALSE /\ named = {} /\ cmdError = "none"
   /\ written = {} /\ listed = {} /\ exit = 0
 PNext == LoadSchemaFile \/ LoadOps \/ Command \/ Output
+(* liveness: every run of the pipeline reaches "done" (no stage waits for anything) *)
+PLiveSpec(projects) == PInit(projects) /\ [][PNext]_vars /\ WF_vars(PNext)
+PipelineTerminates == <>(stage = "done")
 
 ----------------------------------------------------------------------------
 (* The terminal outcome as a function of the project (what Trace_C18 judges a real run by); *)
